@@ -8,11 +8,15 @@ use std::time::{Duration, Instant};
 
 pub const BIN_DIR: &str = "/verif/target/repo-bins/release";
 
+/// `VERIF_BIN_DIR` overrides the directory (used by tools/regress_parallel.py, which builds scratch copies).
+fn bin_dir() -> PathBuf {
+    PathBuf::from(std::env::var("VERIF_BIN_DIR").unwrap_or_else(|_| BIN_DIR.to_string()))
+}
 pub fn checker_bin() -> PathBuf {
-    PathBuf::from(BIN_DIR).join("hctl-model-checker")
+    bin_dir().join("hctl-model-checker")
 }
 pub fn converter_bin() -> PathBuf {
-    PathBuf::from(BIN_DIR).join("convert-aeon-to-bnet")
+    bin_dir().join("convert-aeon-to-bnet")
 }
 
 pub struct RunOut {
